@@ -6,6 +6,7 @@ CONSTANTS
   MaxOps = 0
   MaxChunks = 1
   Kinds = {"rot", "flush", "flush0"}
+  Orders = "id"
   Windows = "all"
   MaxFaults = 0
   MaxSyncFaults = 0
@@ -13,5 +14,5 @@ CONSTANTS
   ExactMax = 100
   TolDiv = 50
 SPECIFICATION Spec
-INVARIANTS TypeOK Contiguous NoEarlyRotation NoOverdueAdd EveryAddInExactlyOneChunk StampCoversContent ReaderIsContract Emit
+INVARIANTS TypeOK Contiguous NoEarlyRotation NoOverdueAdd EveryAddInExactlyOneChunk StampCoversContent ReaderIsContract OrderIndependent Emit
 CHECK_DEADLOCK FALSE
